@@ -125,10 +125,11 @@ def describe(p):
 
 
 def judge_requests(u, impl, model):
+    """solver-independent judgements only; everything that presupposes a correct solver answer goes through extra_checks,
+    where a suspect is re-solved with preprocessing off before it is blamed on prtpy"""
     p = u["params"]
     desc = describe(p)
     cap = impl.get("cap") or {}
-    js = []
     if p.get("force_status"):
         if impl.get("exc") != "ValueError":
             return [("py", None, f"{desc}: solver status was not OPTIMAL but the call {'returned ' + UN.short(impl.get('bins'), 150) if 'bins' in impl else 'raised ' + str(impl.get('exc'))} instead of raising ValueError")]
@@ -136,15 +137,36 @@ def judge_requests(u, impl, model):
     if "exc" in impl:
         if impl["exc"] != "ValueError":
             return [("py", None, f"{desc} raised {impl['exc']}")]
+        if cap.get("status") == "OPTIMAL":
+            return [("py", None, f"{desc} raised ValueError although the solver reported OPTIMAL")]
         return []          # infeasibility is judged against the oracle in extra_checks
     bins = impl["bins"]
+    k = p["k"]
+    ws = p.get("weights") or [1] * k
+    js = []
+    # the returned bins are the decoding of the solver's own answer, whatever that answer is
+    x = cap.get("x")
+    if cap.get("status") != "OPTIMAL":
+        js.append(("py", None, f"{desc}: returned bins although the solver status was {cap.get('status')}"))
+    elif isinstance(x, list) and all(isinstance(v, int) for v in x):
+        o, ok = p["objective"]
+        js.append(("ilp_run", [1 if p["keep"] else 0, o, ok, k, UN.ids_of(p), p["vals"], expand(p), ws, [x]],
+                   lambda r: None if isinstance(r, dict) and r.get("ok") == bins else f"{desc}: returned bins {UN.short(bins, 200)} are not the decoding of the solver's answer {x}: model decode gives {UN.short(r, 200)}"))
+    return js
+
+
+def defects(p, r):
+    """requirements on a returned result that presuppose a correct solver answer"""
+    desc = describe(p)
+    bins = r["bins"]
     k = p["k"]
     ws = p.get("weights") or [1] * k
     copies = expand(p)
     ids = UN.ids_of(p)
     vm = UN.valmap(p)
+    out = []
     if not isinstance(bins, list) or len(bins) != k:
-        return [("py", None, f"{desc} returned {UN.short(bins)}: not {k} bins")]
+        return [f"{desc} returned {UN.short(bins)}: not {k} bins"]
     sums = [s for s, _ in bins]
     if p["keep"]:
         cnt = {}
@@ -152,9 +174,8 @@ def judge_requests(u, impl, model):
             for x in l:
                 cnt[x] = cnt.get(x, 0) + 1
             if s != sum(vm.get(x, 0) for x in l):
-                js.append(("py", None, f"{desc}: bin sum {s} but items worth {sum(vm.get(x, 0) for x in l)}"))
-        # items with equal names cannot occur (ids distinct); plain lists: name = value, so count per value
-        if p["fmt"] in ("list", "array", "tuple"):
+                out.append(f"{desc}: bin sum {s} but items worth {sum(vm.get(x, 0) for x in l)}")
+        if p["fmt"] in ("list", "array", "tuple"):      # name = value: count per value
             want = {}
             for v, c in zip(p["vals"], copies):
                 want[v] = want.get(v, 0) + c
@@ -162,24 +183,15 @@ def judge_requests(u, impl, model):
         else:
             want = {i: c for i, c in zip(ids, copies) if c}
         if cnt != want:
-            js.append(("py", None, f"{desc}: each item must be placed exactly `copies` times; placed {cnt}, requested {want}; bins {UN.short(bins, 200)}"))
-    else:
-        if sum(sums) != sum(v * c for v, c in zip(p["vals"], copies)):
-            js.append(("py", None, f"{desc}: sums {sums} do not add up to the total of the requested copies"))
+            out.append(f"{desc}: each item must be placed exactly `copies` times; placed {cnt}, requested {want}; bins {UN.short(bins, 200)}")
+    elif sum(sums) != sum(v * c for v, c in zip(p["vals"], copies)):
+        out.append(f"{desc}: sums {sums} do not add up to the total of the requested copies")
     wsums = weighted(sums, ws)
     if any(wsums[i] > wsums[i + 1] for i in range(k - 1)):
-        js.append(("py", None, f"{desc}: (weighted) sums are not in non-decreasing order: sums {sums}, weights {ws}"))
+        out.append(f"{desc}: (weighted) sums are not in non-decreasing order: sums {sums}, weights {ws}")
     if not extras_ok(p.get("extras", []), wsums):
-        js.append(("py", None, f"{desc}: additional constraint violated by the returned sums {sums} (weighted {[str(x) for x in wsums]})"))
-    # the returned bins are the decoding of the solver's own answer
-    x = cap.get("x")
-    if cap.get("status") == "OPTIMAL" and isinstance(x, list) and all(isinstance(v, int) for v in x):
-        o, ok = p["objective"]
-        js.append(("ilp_run", [1 if p["keep"] else 0, o, ok, k, ids, p["vals"], copies, ws, [x]],
-                   lambda r: None if isinstance(r, dict) and r.get("ok") == bins else f"{desc}: returned bins {UN.short(bins, 200)} are not the decoding of the solver's answer {x}: model decode gives {UN.short(r, 200)}"))
-        js.append(("ilp_feasible", [p["vals"], k, copies, ws, p.get("extras", []), x],
-                   lambda r: None if r is True else f"{desc}: the solver's OPTIMAL answer {x} does not satisfy the modelled constraints"))
-    return js
+        out.append(f"{desc}: additional constraint violated by the returned sums {sums} (weighted {[str(x) for x in wsums]})")
+    return out
 
 
 def oracle_best(p, vectors):
@@ -230,8 +242,9 @@ def extra_checks(rng, tier, us, oc):
                 suspects.append((i, b))
         else:
             STATS["optimality_checked"] += 1
-            if "bins" not in r or not isinstance(r["bins"], list) or len(r["bins"]) != p["k"] or impl_value(p, r) != b:
+            if "bins" not in r or defects(p, r) or impl_value(p, r) != b:
                 suspects.append((i, b))
+    faulty = set()       # answers the solver got wrong (right with preprocessing off): not prtpy's fault, excluded below
     if suspects:
         cases = []
         for i, b in suspects:
@@ -242,19 +255,23 @@ def extra_checks(rng, tier, us, oc):
         for (i, b), r2 in zip(suspects, again):
             p = us[i]["params"]
             r = oc.impl[i]
-            good2 = (r2.get("exc") == "ValueError") if b is None else ("bins" in r2 and isinstance(r2["bins"], list) and len(r2["bins"]) == p["k"] and impl_value(p, r2) == b)
+            good2 = (r2.get("exc") == "ValueError") if b is None else ("bins" in r2 and not defects(p, r2) and impl_value(p, r2) == b)
             if good2:
                 STATS["solver_faults"] += 1
+                faulty.add(i)
                 continue
             if b is None:
                 t = f"{describe(p)}: no arrangement satisfies the constraints, a ValueError is required, but the call {'returned ' + UN.short(r.get('bins'), 160) if 'bins' in r else 'raised ' + str(r.get('exc'))}"
             else:
-                got = ("objective " + str(impl_value(p, r)) + " with bins " + UN.short(r["bins"], 160)) if "bins" in r and isinstance(r["bins"], list) and len(r["bins"]) == p["k"] else ("raised " + str(r.get("exc")))
-                t = f"{describe(p)}: optimum over the arrangements satisfying the constraints is {b}, the call gave {got}"
+                if "bins" in r and defects(p, r):
+                    t = defects(p, r)[0]
+                else:
+                    got = ("objective " + str(impl_value(p, r)) + " with bins " + UN.short(r["bins"], 160)) if "bins" in r else ("raised " + str(r.get("exc")))
+                    t = f"{describe(p)}: optimum over the arrangements satisfying the constraints is {b}, the call gave {got}"
             out.append({"text": t, "units": [us[i]], "kind": "failing-input"})
     # equal weights never change the result
     for j, u in enumerate(us):
-        if "sibling_of" in u:
+        if "sibling_of" in u and j not in faulty and u["sibling_of"] not in faulty:
             i = u["sibling_of"]
             ri, rj = oc.impl[i], oc.impl[j]
             if ("bins" in ri) != ("bins" in rj):
